@@ -484,6 +484,25 @@ func GenAdversarial(rng *RNG) []byte {
 	return []byte(sb.String())
 }
 
+// GenLongDoc: a document of 100-400 lines (internal line/blank-line bookkeeping buffers wrap around here)
+func GenLongDoc(rng *RNG) []byte {
+	var sb strings.Builder
+	target := 100 + rng.Intn(300)
+	unit := []string{"- item\n", "- item\n\n  para\n", "> q\n", "para\n\n", "1. a\n", "    code\n", "# h\n", "- a\n\n- b\n", "* x\n  y\n\n"}[rng.Intn(9)]
+	lines := 0
+	for lines < target {
+		if rng.Chance(85) {
+			sb.WriteString(unit)
+			lines += strings.Count(unit, "\n")
+		} else {
+			b := genBlock(rng, 1)
+			sb.WriteString(b)
+			lines += strings.Count(b, "\n")
+		}
+	}
+	return []byte(sb.String())
+}
+
 // DocStream emits n documents: corpus first (all of it when n allows), then mutants, generated and adversarial ones.
 func DocStream(rng *RNG, n int, f func(kind string, doc []byte)) {
 	corpus := CorpusDocs()
@@ -496,6 +515,11 @@ func DocStream(rng *RNG, n int, f func(kind string, doc []byte)) {
 		k++
 	}
 	for k < n {
+		if rng.Chance(2) {
+			f("long", GenLongDoc(rng))
+			k++
+			continue
+		}
 		if rng.Chance(2) { // a byte-order mark in front of an otherwise ordinary document
 			f("bom", append([]byte("\xef\xbb\xbf"), GenDoc(rng)...))
 			k++
